@@ -220,7 +220,7 @@ def run_case(case):
 
 
 def cases(tier, seed):
-    n = 3000 if tier == "quick" else 80000
+    n = 3000 if tier == "quick" else 400000
     yield {"seed": 1, "storage": 80, "init": True,
            "fixed": [(10, [("let", ("var", "A"), ("fn", "JOYSTK", [X.num(0)]), False)])]}
     for i in range(n):
